@@ -7,6 +7,8 @@ open GlueVerif.C02
 #print axioms roundtrip_framework
 #print axioms roundtrip_framework_cycles
 #print axioms roundtrip_framework_callbacks
+#print axioms classes_field_faithful
+#print axioms roundtrip_classes
 #print axioms declared_ids_denote_declared_names
 #print axioms dispatch_matches_observed
 #print axioms table_offenders_nil
